@@ -24,8 +24,9 @@ def patched_overlay(diff_path):
         return {rel: (Path(td) / rel).read_text() for rel in rels if (Path(td) / rel).exists()}
 known = load_known_findings()
 res = {}
+only = set(a for a in sys.argv[1:] if not a.startswith('-'))          # optional: seed names to re-run
 for d in sorted(Path('/verif/seeded').iterdir()):
-    if not (d / 'patch.diff').exists():
+    if not (d / 'patch.diff').exists() or (only and d.name not in only):
         continue
     meta = json.loads((d / 'meta.json').read_text())
     ov = patched_overlay(d / 'patch.diff')
@@ -45,6 +46,13 @@ for d in sorted(Path('/verif/seeded').iterdir()):
     res[d.name] = sorted(set(fired)) or 'MISSED'
 for k, v in res.items():
     print(k, v)
+if '--record' in sys.argv:          # keep the rules that fire today next to the first-run record (used by tools_seed_table.py)
+    for k, v in res.items():
+        if isinstance(v, list):
+            mp = Path('/verif/seeded') / k / 'meta.json'
+            meta = json.loads(mp.read_text())
+            meta['fires_now'] = v
+            mp.write_text(json.dumps(meta, indent=1))
 # seeds that stay undetected for a stated reason (value-level behaviour outside the technique) are listed in seeded/not_caught.json
 nc = json.loads(Path('/verif/seeded/not_caught.json').read_text()) if Path('/verif/seeded/not_caught.json').exists() else {}
 print('not caught (recorded with reason):', sorted(k for k, v in res.items() if v == 'MISSED' and k in nc))
